@@ -15,23 +15,33 @@ def wirePacket (o : Op) : Packet := o.pubrel.getD o.packet
     packet is a PUBREL with the same packet identifier. -/
 theorem after_pubrec_only_pubrel (e : Engine) (a : Ack) (opId : Nat) (o : Op) (p : Publish)
     (hs : stateBlocksAcks e.state = false) (hl : e.pendingPub.lookup a.packetId = some opId)
-    (ho : e.op? opId = some o) (hid : o.id = opId) (hp : o.packet = .publish p) (hq : p.qos = 2) (hrc : a.reasonCode < 128) :
+    (ho : e.op? opId = some o) (hid : o.id = opId) (hp : o.packet = .publish p) (hq : p.qos = 2) (hrc : a.reasonCode < 128)
+    (hfirst : o.pubrel = none) :
     let e' := (e.handlePubrec a).1
     (e.handlePubrec a).2 = .ok ∧
     (e'.op? opId).map wirePacket = some (.pubrel { packetId := a.packetId }) ∧ e'.highQ = e.highQ ++ [opId] := by
   subst hid
   have hn : ¬ (a.reasonCode ≥ 128) := by omega
   unfold Engine.op? at ho
-  simp [Engine.handlePubrec, hs, hl, ho, hp, hq, hn, Engine.setOp, Engine.enqueue, Engine.op?, lookup_mapInsert_self, wirePacket]
+  simp [Engine.handlePubrec, hs, hl, ho, hp, hq, hn, hfirst, Engine.setOp, Engine.enqueue, Engine.op?, lookup_mapInsert_self, wirePacket]
+
+/-- **A second PUBREC for the same delivery is a protocol error**: its PUBREL is already queued, being written or sent, and
+    is not queued a second time - neither packet of a delivery is ever repeated within one connection, whatever the server
+    repeats.  (Whole-history counterpart: `Props/C04.pubrel_queued_at_most_once`.) -/
+theorem second_pubrec_is_an_error (e : Engine) (a : Ack) (opId : Nat) (o : Op) (p : Publish)
+    (hs : stateBlocksAcks e.state = false) (hl : e.pendingPub.lookup a.packetId = some opId)
+    (ho : e.op? opId = some o) (hp : o.packet = .publish p) (hq : p.qos = 2) (hpr : o.pubrel.isSome = true) :
+    e.handlePubrec a = (e, .err "ProtocolError") := by
+  simp [Engine.handlePubrec, hs, hl, ho, hp, hq, hpr]
 
 /-- a failing PUBREC ends the delivery: the operation completes with it and nothing more is sent for it -/
 theorem failing_pubrec_completes (e : Engine) (a : Ack) (opId : Nat) (o : Op) (p : Publish)
     (hs : stateBlocksAcks e.state = false) (hl : e.pendingPub.lookup a.packetId = some opId)
     (ho : e.op? opId = some o) (hp : o.packet = .publish p) (hq : p.qos = 2) (hrc : a.reasonCode ≥ 128)
-    (hnc : e.current ≠ some opId) (hnq : opId ∉ e.highQ) :
+    (hfirst : o.pubrel = none) (hnc : e.current ≠ some opId) (hnq : opId ∉ e.highQ) :
     e.handlePubrec a = e.completeSuccess opId (some (.pubrec a.packetId a.reasonCode)) := by
   have : (e.current == some opId) = false := by simpa using hnc
-  simp [Engine.handlePubrec, hs, hl, ho, hp, hq, hrc, this, hnq]
+  simp [Engine.handlePubrec, hs, hl, ho, hp, hq, hrc, hfirst, this, hnq]
 
 /-- ... but not while the PUBREL of that operation is queued or being written (a successful PUBREC came first): the server
     cannot have seen the PUBREL yet, and completing the operation would drop the PUBREL (or pull it from under the encoder),
@@ -40,9 +50,12 @@ theorem failing_pubrec_before_pubrel_sent_is_an_error (e : Engine) (a : Ack) (op
     (hs : stateBlocksAcks e.state = false) (hl : e.pendingPub.lookup a.packetId = some opId)
     (ho : e.op? opId = some o) (hp : o.packet = .publish p) (hq : p.qos = 2) (hrc : a.reasonCode ≥ 128)
     (hc : e.current = some opId ∨ opId ∈ e.highQ) : e.handlePubrec a = (e, .err "ProtocolError") := by
-  rcases hc with hc | hc
-  · simp [Engine.handlePubrec, hs, hl, ho, hp, hq, hrc, hc]
-  · simp [Engine.handlePubrec, hs, hl, ho, hp, hq, hrc, hc]
+  cases hpr : o.pubrel.isSome with
+  | true => simp [Engine.handlePubrec, hs, hl, ho, hp, hq, hpr]
+  | false =>
+    rcases hc with hc | hc
+    · simp [Engine.handlePubrec, hs, hl, ho, hp, hq, hrc, hc, hpr]
+    · simp [Engine.handlePubrec, hs, hl, ho, hp, hq, hrc, hc, hpr]
 
 /-- **A PUBCOMP completes the delivery only after the PUBREL has left the client**: while the PUBREL is still queued or half
     written the PUBCOMP cannot be its answer - it is refused with a protocol error and the operation keeps its place, so
@@ -143,5 +156,11 @@ theorem pubrel_only_for_qos2 (cfg : Config) (evs : List Event) (id : Nat) (o : O
       o.pubrel.isSome = true) :=
   let x := (inv2_after cfg evs).2
   ⟨x.x8 id o h, fun hc hm => x.x1c rfl id hc hm o h⟩
+
+/-- **A PUBREL is queued at most once.**  After any history - whatever the server sent, repeated PUBRECs included - the
+    high-priority queue names no operation twice: the PUBREL of a delivery (like every acknowledgement, ping, CONNECT and
+    DISCONNECT queued there) is written once per connection, never repeated within it. -/
+theorem pubrel_queued_at_most_once (cfg : Config) (evs : List Event) : (runEvents (Engine.new cfg) evs).1.highQ.Nodup :=
+  (inv2_after cfg evs).2.x7
 
 end GV.Props.C04
